@@ -32,9 +32,19 @@ impl Parse for TypeWithPunctuatedMeta {
     }
 }
 
+/// Looks through the invisible group that wraps a `macro_rules` type fragment (`$t:ty`).
+#[inline]
+pub(crate) fn ungroup_type(mut ty: &Type) -> &Type {
+    while let Type::Group(group) = ty {
+        ty = group.elem.as_ref();
+    }
+
+    ty
+}
+
 #[inline]
 pub(crate) fn dereference(ty: &Type) -> &Type {
-    if let Type::Reference(ty) = ty {
+    if let Type::Reference(ty) = ungroup_type(ty) {
         dereference(ty.elem.as_ref())
     } else {
         ty
@@ -43,7 +53,7 @@ pub(crate) fn dereference(ty: &Type) -> &Type {
 
 #[inline]
 pub(crate) fn dereference_changed(ty: &Type) -> (&Type, bool) {
-    if let Type::Reference(ty) = ty {
+    if let Type::Reference(ty) = ungroup_type(ty) {
         (dereference(ty.elem.as_ref()), true)
     } else {
         (ty, false)
@@ -59,7 +69,7 @@ pub(crate) fn dereference_stars(ty: &Type, extra: usize) -> proc_macro2::TokenSt
     let mut depth = extra;
     let mut ty = ty;
 
-    while let Type::Reference(reference) = ty {
+    while let Type::Reference(reference) = ungroup_type(ty) {
         depth += 1;
         ty = reference.elem.as_ref();
     }
